@@ -6456,26 +6456,35 @@ func (c *linkerContext) generateChunkCSS(chunkIndex int, chunkWaitGroup *sync.Wa
 	// End the metadata lazily. The final output size is not known until the
 	// final import paths are substituted into the output pieces generated below.
 	if c.options.NeedsMetafile {
-		pieces := make([]intermediateOutput, len(compileResults))
-		for i, compileResult := range compileResults {
-			pieces[i] = c.breakOutputIntoPieces(compileResult.CSS)
+		// The same file can be present multiple times (e.g. if it's imported more
+		// than once with different conditions) but it must only be listed once
+		metaOrder := make([]uint32, 0, len(compileResults))
+		metaPieces := make(map[uint32][]intermediateOutput, len(compileResults))
+		for _, compileResult := range compileResults {
+			if !compileResult.sourceIndex.IsValid() {
+				continue
+			}
+			sourceIndex := compileResult.sourceIndex.GetIndex()
+			pieces, ok := metaPieces[sourceIndex]
+			if !ok {
+				metaOrder = append(metaOrder, sourceIndex)
+			}
+			metaPieces[sourceIndex] = append(pieces, c.breakOutputIntoPieces(compileResult.CSS))
 		}
 		chunk.jsonMetadataChunkCallback = func(finalOutputSize int) helpers.Joiner {
 			finalRelDir := c.fs.Dir(chunk.finalRelPath)
-			isFirst := true
-			for i, compileResult := range compileResults {
-				if !compileResult.sourceIndex.IsValid() {
-					continue
-				}
-				if isFirst {
-					isFirst = false
-				} else {
+			for i, sourceIndex := range metaOrder {
+				if i > 0 {
 					jMeta.AddString(",")
+				}
+				count := 0
+				for _, output := range metaPieces[sourceIndex] {
+					count += c.accurateFinalByteCount(output, finalRelDir)
 				}
 				jMeta.AddString(fmt.Sprintf(
 					c.options.MetafileFormat.MaybeRemoveWhitespace("\n        %s: {\n          \"bytesInOutput\": %d\n        }"),
-					helpers.QuoteForJSON(c.graph.Files[compileResult.sourceIndex.GetIndex()].InputFile.Source.PrettyPaths.Select(c.options.MetafilePathStyle), c.options.ASCIIOnly),
-					c.accurateFinalByteCount(pieces[i], finalRelDir)))
+					helpers.QuoteForJSON(c.graph.Files[sourceIndex].InputFile.Source.PrettyPaths.Select(c.options.MetafilePathStyle), c.options.ASCIIOnly),
+					count))
 			}
 			if len(compileResults) > 0 {
 				jMeta.AddString(c.options.MetafileFormat.MaybeRemoveWhitespace("\n      "))
